@@ -739,46 +739,21 @@ func (m *Model) LeafAvailable(f *MFn, l MLeaf) bool {
 	return a.leaf(f, l)
 }
 
-// MayRun: every function that some reading of "reachable" allows an Invoke of
-// f to execute (upper bound).
+// MayRun: every function an Invoke of f may execute (upper bound): the
+// closure of f over the resolution graph. A consumer of a decorated key
+// depends on the decorator; the providers behind it are reachable only
+// through the decorator's own parameters. For value groups every decorator on
+// the scope path runs (outermost first), and the feeders are reached directly
+// only when nothing decorates the group. Soft groups reach nothing.
 func (m *Model) MayRun(f *MFn) map[int]bool {
 	out := map[int]bool{}
 	var visit func(g *MFn)
-	add := func(t *MFn) {
-		if !out[t.ID] {
-			out[t.ID] = true
-			visit(t)
-		}
-	}
 	visit = func(g *MFn) {
 		for _, l := range g.Leaves {
-			self := selfFor(g, l.Key)
-			decos := m.DecosOnPath(g.View, l.Key, self)
-			for _, d := range decos {
-				add(d)
-			}
-			if l.IsGroup {
-				if l.Soft {
-					continue
-				}
-				views := []int{g.View}
-				for _, d := range decos {
-					views = append(views, d.View)
-				}
-				for _, v := range views {
-					for _, c := range m.Feeders(v, l.Key) {
-						add(c)
-					}
-				}
-				continue
-			}
-			views := []int{g.View}
-			for _, d := range decos {
-				views = append(views, d.View)
-			}
-			for _, v := range views {
-				if p := m.NearestProvider(v, l.Key); p != nil {
-					add(p)
+			for _, t := range m.Targets(g, l) {
+				if !out[t.ID] {
+					out[t.ID] = true
+					visit(t)
 				}
 			}
 		}
